@@ -5,6 +5,7 @@ go 1.26.8
 require (
 	github.com/dgraph-io/badger/v2 v2.0.3
 	github.com/ethereum/go-ethereum v1.9.15
+	github.com/gorilla/websocket v1.4.2
 	github.com/vipnode/vipnode/v2 v2.0.0
 	pgregory.net/rapid v1.3.0
 )
@@ -26,7 +27,6 @@ require (
 	github.com/golang/protobuf v1.4.2 // indirect
 	github.com/golang/snappy v0.0.1 // indirect
 	github.com/google/uuid v1.1.1 // indirect
-	github.com/gorilla/websocket v1.4.2 // indirect
 	github.com/hashicorp/golang-lru v0.5.4 // indirect
 	github.com/huin/goupnp v1.0.0 // indirect
 	github.com/jackpal/go-nat-pmp v1.0.2 // indirect
